@@ -103,6 +103,7 @@ func runC13(r *vf.Run) {
 			r.Cover("server_option_sets", so.name)
 		}
 	}
+	c13OddNames(r)
 	c13Conversions(r)
 	c13UTF8Finding(r)
 	r.Floor("every server option set used", r.Covered("server_option_sets") == len(serverOptionSets))
@@ -550,6 +551,12 @@ func c13Driver(r *vf.Run, sid string, sp *serverProc, rng *rand.Rand, ds *gen.Da
 			r.Violation(qid, "grpc-vs-file-dsn", w)
 		}
 		r.Count("rows_compared_between_dsn_kinds", int64(len(gt.Rows)))
+	}
+	if !poisoned {
+		if p, msg, _ := vf.Try(func() { c13StmtLifecycles(r, sid, gdb, fdb, ds) }); p {
+			r.Violation(sid+"/sql-lifecycles", "panic", map[string]any{"panic": msg})
+			poisoned = true
+		}
 	}
 	// the same handle used by 12 goroutines at once, four of them with a statement the server rejects: a valid statement
 	// gets its own rows, never somebody else's error
